@@ -256,14 +256,12 @@ pub open spec fn cb_pre<const B: Word, const NewB: Word>(precision: usize, repr:
     // (the general path -- ln / exp at doubled precision -- is cut off by rule D20 and proved unreachable)
     &&& (NewB == B || repr_inf(repr) || (NewB > B && ilog_spec(NewB as int, B as int) > 1)
             || (NewB < B && ilog_spec(B as int, NewB as int) > 1))
-    // KNOWN DEFECT REGION EXCLUDED: the shortcuts "same base" and "B is a power of NewB" return Exact(..) without
-    // looking at the target precision; the contract is claimed only where the value fits the precision
-    &&& ((!repr_inf(repr) && NewB == B) ==> (precision == 0 || ndigits(B as int, sig) <= precision))
-    &&& ((!repr_inf(repr) && NewB < B) ==> (precision == 0 || forall|s1: int, e1: int|
-            #[trigger] same_value(NewB as int, s1, e1, sig, e * ilog_spec(B as int, NewB as int))
-            && sig_normal(NewB as int, s1) ==> ndigits(NewB as int, s1) <= precision))
     // exponent range: isize overflow of the new exponent is outside this contract
+    &&& ((!repr_inf(repr) && NewB == B) ==> exp_in_range(B as int, sig, e))
     &&& ((!repr_inf(repr) && NewB < B) ==> isize::MIN <= e * ilog_spec(B as int, NewB as int) <= isize::MAX)
+    &&& ((!repr_inf(repr) && NewB < B) ==> forall|s1: int, e1: int|
+            #[trigger] same_value(NewB as int, s1, e1, sig, e * ilog_spec(B as int, NewB as int))
+            ==> exp_in_range(NewB as int, s1, e1))
     &&& ((!repr_inf(repr) && NewB > B) ==> forall|s1: int, e1: int|
             #[trigger] same_value(B as int, s1, ilog_spec(NewB as int, B as int) * e1, sig, e)
             ==> exp_in_range(NewB as int, s1, e1))
